@@ -385,6 +385,32 @@ def check(ctx):
     ctx.instance('C17.R8', '%d classes of the compiled object graph, %d with pickling hooks' % (ncls, n8), 'ok', nontrivial=False)
     if ncls < 100:
         raise AnalysisError('C17.R8 saw only %d classes' % ncls)
+    # ---- R9: the key sees the files as the producer sees them: same sequence, same order, same multiplicity.  parse_files() merges the modules in the order given and
+    #      the compiler processes them in that order, so the order of the file list is part of what is compiled.
+    ctx.rule('C17.R9', 'the key iterates over the very sequence that is handed to the producer (not a sorted / de-duplicated / sliced view of it)')
+    n9 = 0
+    prod_names = set()
+    for pexpr, _s, _v in producers:
+        prod_names |= {n_.id for n_ in ast.walk(pexpr) if isinstance(n_, ast.Name)} & set(flow.param_names(f))
+    iters = [(n_, n_.iter) for n_ in walk_no_nested(f) if isinstance(n_, ast.For)] + \
+            [(n_, g_.iter) for n_ in walk_no_nested(f) if isinstance(n_, (ast.ListComp, ast.GeneratorExp, ast.SetComp)) for g_ in n_.generators]
+    for node_, it_ in iters:
+        inner = it_
+        while isinstance(inner, ast.Call) and isinstance(inner.func, ast.Name) and inner.func.id in ('list', 'tuple', 'iter', 'enumerate') and len(inner.args) == 1:
+            inner = inner.args[0]
+        used = {n_.id for n_ in ast.walk(it_) if isinstance(n_, ast.Name)} & prod_names
+        if not used:
+            continue
+        n9 += 1
+        ok = isinstance(inner, ast.Name) and inner.id in prod_names
+        ctx.instance('C17.R9', '%s iterates over %s' % (fq, ast.unparse(it_)[:60]), 'the producer\'s sequence' if ok else 'VIOLATION', node=node_, file=F)
+        if not ok:
+            ctx.violation('C17.R9', F, node_, fq,
+                          'the key is built from `%s`, the compiled object from `%s` as given: file lists that differ in what that view discards (order, duplicates, a part) share '
+                          'one key although parse_files() and the compiler process the modules in the order given, so the second call gets the specification compiled for the first'
+                          % (ast.unparse(it_)[:80], sorted(used)[0]), stmt='key iterates over a view of the file list')
+    if n9 == 0:
+        ctx.instance('C17.R9', '%s: no iteration over the file list found' % fq, 'undecided', nontrivial=False)
     ctx.floor('C17.R1', 2)
     ctx.floor('C17.R3', 1)
     ctx.floor('C17.R4', 1)
